@@ -51,8 +51,9 @@ EXTRA_TRUSTED = [
     "part of this model)",
     "CPython semantics of BaseException.__setattr__/__delattr__ for __cause__, __context__, __traceback__, "
     "__suppress_context__, __notes__ and of object.__setattr__/__delattr__ (modelled by hand)",
-    "the tuples of names _frozen_setattrs/_frozen_delattrs let through are read from the source text by a "
-    "fail-closed ast reader (Gen/C05_consts.v) and proved equal to the model constants",
+    "harness/translate_c05.py: the fail-closed Python-subset -> Gallina translator behind the tie by translation "
+    "(Gen/C05_tie.v, lemmas in C05/Tie.v), including its reading of Python's if/and/or/not/in/is and of which "
+    "statements of attrs().wrap, _ClassBuilder.__init__ and add_setattr it slices out",
 ]
 ASSUMPTIONS = [
     "user-written __setattr__/__delattr__ used by the harness delegate to object's; hooked fields of mutable "
@@ -65,63 +66,23 @@ ASSUMPTIONS = [
 # constants read from the source
 
 
-class _Shape(Exception):
-    pass
-
-
-def _tuple_of_names(fn, what):
-    """`isinstance(self, BaseException) and name in (<str>, ...)` inside the first `if` of fn.
-    Fail-closed: any other shape yields a sentinel that cannot equal the model's constants."""
-    try:
-        return _tuple_of_names_strict(fn, what)
-    except _Shape as e:
-        return ["<unrecognised: %s>" % str(e).replace('"', "'")]
-
-
-def _tuple_of_names_strict(fn, what):
-    first = [n for n in fn.body if not (isinstance(n, ast.Expr) and isinstance(getattr(n, "value", None), ast.Constant))]
-    if len(first) != 2 or not isinstance(first[0], ast.If) or not isinstance(first[1], ast.Raise):
-        raise _Shape("%s no longer has the shape `if <test>: ...; raise FrozenInstanceError`" % what)
-    r = first[1].exc
-    if not (isinstance(r, ast.Name) and r.id == "FrozenInstanceError"):
-        raise _Shape("%s does not end in `raise FrozenInstanceError`" % what)
-    t = first[0].test
-    if not (isinstance(t, ast.BoolOp) and isinstance(t.op, ast.And) and len(t.values) == 2):
-        raise _Shape("test of %s is not `isinstance(...) and name in (...)`" % what)
-    isi, cmp_ = t.values
-    ok_isi = (isinstance(isi, ast.Call) and isinstance(isi.func, ast.Name) and isi.func.id == "isinstance"
-              and len(isi.args) == 2 and isinstance(isi.args[1], ast.Name) and isi.args[1].id == "BaseException")
-    ok_cmp = (isinstance(cmp_, ast.Compare) and len(cmp_.ops) == 1 and isinstance(cmp_.ops[0], ast.In)
-              and isinstance(cmp_.left, ast.Name) and cmp_.left.id == "name"
-              and isinstance(cmp_.comparators[0], ast.Tuple))
-    if not (ok_isi and ok_cmp):
-        raise _Shape("test of %s is not `isinstance(self, BaseException) and name in (...)`" % what)
-    names = []
-    for e in cmp_.comparators[0].elts:
-        if not (isinstance(e, ast.Constant) and isinstance(e.value, str)):
-            raise _Shape("non-literal name in the tuple of %s" % what)
-        names.append(e.value)
-    return names
+def translated_tie():
+    """Source-level tie: Gen/C05_tie.v is regenerated from the current _make.py; C05/Tie.v proves it equal to
+    the model functions on every input."""
+    from . import translate_c05
+    return translate_c05.regenerate(), "theories/C05/Tie.vo"
 
 
 def pre_build():
-    src = os.path.join(vlib.REPO, "src", "attr", "_make.py")
-    mod = ast.parse(open(src).read())
-    fns = {n.name: n for n in mod.body if isinstance(n, ast.FunctionDef)}
-    for need in ("_frozen_setattrs", "_frozen_delattrs"):
-        if need not in fns:
-            fns[need] = None
-    s = _tuple_of_names(fns["_frozen_setattrs"], "_frozen_setattrs") if fns["_frozen_setattrs"] else ["<missing>"]
-    d = _tuple_of_names(fns["_frozen_delattrs"], "_frozen_delattrs") if fns["_frozen_delattrs"] else ["<missing>"]
-    text = ("(* generated by harness/c05.py:pre_build from src/attr/_make.py - do not edit *)\n"
-            "From Coq Require Import List String.\nImport ListNotations.\nOpen Scope string_scope.\n"
-            "Definition src_set_ok : list string := %s.\n"
-            "Definition src_del_ok : list string := %s.\n" % (lst(q(x) for x in s), lst(q(x) for x in d)))
-    path = os.path.join(vlib.THEORIES, "Gen", "C05_consts.v")
-    old = open(path).read() if os.path.exists(path) else None
-    if old != text:
-        with open(path, "w") as fh:
-            fh.write(text)
+    from . import translate_c05
+    translate_c05.regenerate()
+    # the constants file of the first version of this check is superseded by the tie (C05/Tie.v)
+    old = os.path.join(vlib.THEORIES, "Gen", "C05_consts.v")
+    for ext in (".v", ".vo", ".vok", ".vos", ".glob"):
+        try:
+            os.remove(old[:-2] + ext)
+        except OSError:
+            pass
 
 
 # --------------------------------------------------------------------------------------
@@ -1146,6 +1107,11 @@ def _synth_module(tag):
                 if fld.startswith("attr.ib") else "@attrs.define(slots=%s%s)" % ("True" if name.endswith("_s") else "False", extra)
             decls.append("%s\nclass %s_sub(%s):\n    v%s = %s(default=7)\n" % (sub_deco, cn, cn, ann, fld))
             decls.append("class %s_plain(%s):\n    pass\n" % (cn, cn))
+            if cache:
+                # a DICT caching subclass: below a slotted caching class the cache lives in the ancestor's slot
+                dsub = ("@attr.s(slots=False%s)" % extra) if fld.startswith("attr.ib") else ("@attrs.define(slots=False%s)" % extra)
+                decls.append("%s\nclass %s_dsub(%s):\n    v%s = %s(default=7)\n" % (dsub, cn, cn, ann, fld))
+                decls.append("class %s_dsub_plain(%s_dsub):\n    pass\n" % (cn, cn))
         # exceptions
         d = deco.format(extra=", auto_exc=True" if fld.startswith("attr.ib") else "", extra0="")
         decls.append("%s\nclass %s_exc(Exception):\n    x%s = %s()\n    y%s = %s(default=5)\n"
@@ -1189,8 +1155,9 @@ def _is_frozen_instance(o, name="x"):
 
 
 def _observe_instance(obs, m, cn, cls, cnt, o, cache, suffix, copy, pickle):
-    want = [("conv", cnt), 5, (), ("post", 5)] + ([7] if suffix == "_sub" else [])
-    got = [o.x, o.y, o.z, o.w] + ([o.v] if suffix == "_sub" else [])
+    has_v = suffix in ("_sub", "_dsub", "_dsub_plain")
+    want = [("conv", cnt), 5, (), ("post", 5)] + ([7] if has_v else [])
+    got = [o.x, o.y, o.z, o.w] + ([o.v] if has_v else [])
     obs(got == want, "construct-values", "%s: %r" % (cn, got))
     obs(_is_frozen_instance(o), "frozen", cn)
     if cache:
@@ -1212,11 +1179,17 @@ def _observe_instance(obs, m, cn, cls, cnt, o, cache, suffix, copy, pickle):
             obs(False, how, "%s: %s" % (cn, type(e).__name__))
             continue
         same = (type(c2) is cls and c2.x == o.x and c2.y == o.y and c2.z == o.z and c2.w == o.w
-                and (suffix != "_sub" or c2.v == o.v))
+                and (not has_v or c2.v == o.v))
         obs(same and (c2 == o), how + "-equal", cn)
         obs(_is_frozen_instance(c2), how + "-still-frozen", cn)
         if cache and how != "evolve":
             obs(hash(c2) == hash(o), how + "-hash", cn)
+        if cache:
+            # the copy caches too: its fields are hashed at most once more, however often it is hashed
+            c2x = c2.x[1]
+            before = c2x.n
+            hash(c2), hash(c2), hash(c2)
+            obs(c2x.n - before <= 1, how + "-hash-cached-once", "%s: %d" % (cn, c2x.n - before))
 
 
 def extra(tier, seed):
@@ -1238,7 +1211,7 @@ def extra(tier, seed):
     try:
         for name, _d, _f in _VARIANTS:
             for cache in (False, True):
-                for suffix in ("", "_sub", "_plain"):
+                for suffix in ("", "_sub", "_plain") + (("_dsub", "_dsub_plain") if cache else ()):
                     cn = name + ("_c" if cache else "") + suffix
                     cls = getattr(m, cn, None)
                     if cls is None:
